@@ -180,9 +180,60 @@ Definition run_verify_pseudoid (args : list bytes) : bytes :=
   | _ => bs "badargs"
   end.
 
+(* ---------- twin oracle: members the specification does not know must not matter ---------- *)
+(* ev is twin with additional content members whose names are new (exactly different from every
+   name of the twin's content): per the Matrix specification (member names are case-sensitive,
+   unknown members are ignored) both have the same required servers and the same redacted form *)
+Fixpoint nodup_keys (l : list bytes) : bool :=
+  match l with [] => true | k :: r => negb (mem_bytes k r) && nodup_keys r end.
+
+Definition content_extension (twin ev : json) : bool :=
+  match twin, ev with
+  | JObj mt, JObj me =>
+      bytes_eqb (concat_bytes (map (fun kv => fst kv ++ [0]) mt)) (concat_bytes (map (fun kv => fst kv ++ [0]) me))
+      && forallb (fun kv => if bytes_eqb (fst kv) (bs "content") then true
+                            else match assoc_first (fst kv) me with Some v => json_eqb v (snd kv) | None => false end) mt
+      && match assoc_first (bs "content") mt, assoc_first (bs "content") me with
+         | Some (JObj ct), Some (JObj ce) =>
+             nodup_keys (map fst ce)
+             && forallb (fun kv => match assoc_first (fst kv) ce with Some v => json_eqb v (snd kv) | None => false end) ct
+         | _, _ => false
+         end
+  | _, _ => false
+  end.
+
+(* [ver; event json; twin json; lookup; mode; valid servers...] : the model looks at the event only *)
+Definition run_verify_twin (args : list bytes) : bytes :=
+  match args with
+  | ver :: ev :: _ :: rest => run_verify (bs "any" :: ver :: ev :: rest)
+  | _ => bs "badargs"
+  end.
+
+Definition prop_twin (args : list bytes) : bytes :=
+  match args with
+  | ver :: ev :: twin :: lk :: mode :: rest =>
+      match rev rest with
+      | obs :: rvalids =>
+          let valids := rev rvalids in
+          match parse_json ev, parse_json twin with
+          | Some j, Some jt =>
+              if wf_event ver jt && lookup_consistent jt lk && content_extension jt j then
+                let want := spec_observable ver jt (negb (bytes_eqb mode (bs "ok"))) (fun s => mem_bytes s valids) in
+                if bytes_eqb obs want then bs "ok"
+                else bs "FAIL-UNKNOWN-MEMBER-MATTERS want=" ++ want ++ bs " got=" ++ obs
+              else bs "FAIL generator: not a content extension of a well-formed twin"
+          | _, _ => bs "FAIL generator: unparsable"
+          end
+      | [] => bs "badargs"
+      end
+  | _ => bs "badargs"
+  end.
+
 Definition ops_C06 : list (bytes * (list bytes -> bytes)) :=
   [ (bs "C06.verify", run_verify);
     (bs "C06.keyring", run_keyring);
     (bs "C06.verify_pseudoid", run_verify_pseudoid);
+    (bs "C06.verify_twin", run_verify_twin);
+    (bs "C06.prop.twin", prop_twin);
     (bs "C06.prop.verify", prop_verify);
     (bs "C06.prop.keyring", prop_keyring) ].
